@@ -9,7 +9,7 @@
     decodability [lib_ok]/[ext_ok] (C05), the executor [exec], the clock [now] (ns). *)
 From Coq Require Import String Ascii List NArith ZArith Bool.
 From Tongo Require Import Lib.Bits Lib.Res Model.TonConnect
-     Proofs.TonConnectP Proofs.TonConnectQ Proofs.TonConnectA Proofs.TonConnectHistory.
+     Proofs.TonConnectP Proofs.TonConnectQ Proofs.TonConnectA Proofs.TonConnectS Proofs.TonConnectHistory.
 Import ListNotations.
 Local Open Scope Z_scope.
 
@@ -241,6 +241,46 @@ Theorem C19_addressless_cache_refuted :
   (snd (run_history w_cached_step [] (w_login :: w_forged :: nil)) = (Ok w_attacker_key :: Ok w_attacker_key :: nil)) /\
   (map w_stateless (w_login :: w_forged :: nil) = (Ok w_attacker_key :: Err EOther :: nil)).
 Proof. exact addressless_cache_refuted. Qed.
+
+(** the payload is bound to the FULL secret (of any length; [hmac] is keyed with the secret as
+    given): CheckPayload of any server s2 on the payload GeneratePayload made under s1 succeeds
+    exactly when the 16-byte MACs under s1 and s2 agree and the payload has not expired *)
+Theorem C19_check_generated_payload :
+  forall hmac, (forall k m, Forall is_byte (hmac k m)) -> (forall k m, (16 <= length (hmac k m))%nat) ->
+  forall s1 s2 nonce lt1 now1 lt2 now2,
+    length nonce = 8%nat -> Forall is_byte nonce ->
+    check_payload hmac s2 lt2 now2 (generate_payload hmac s1 nonce lt1 now1) =
+      if beqb (firstn 16 (hmac s1 (payload_body nonce lt1 now1))) (firstn 16 (hmac s2 (payload_body nonce lt1 now1)))
+      then Ok (negb (expired now2 (to_int64 (((now1 + lt1) / giga) mod 2 ^ 64)) lt2))
+      else Ok false.
+Proof. exact check_generated_payload. Qed.
+
+Theorem C19_payload_of_other_secret_rejected :
+  forall hmac, (forall k m, Forall is_byte (hmac k m)) -> (forall k m, (16 <= length (hmac k m))%nat) ->
+  forall s1 s2 nonce lt1 now1 lt2 now2,
+    length nonce = 8%nat -> Forall is_byte nonce ->
+    firstn 16 (hmac s1 (payload_body nonce lt1 now1)) <> firstn 16 (hmac s2 (payload_body nonce lt1 now1)) ->
+    check_payload hmac s2 lt2 now2 (generate_payload hmac s1 nonce lt1 now1) = Ok false.
+Proof. exact payload_of_other_secret_rejected. Qed.
+
+Theorem C19_generated_payload_accepted :
+  forall hmac, (forall k m, Forall is_byte (hmac k m)) -> (forall k m, (16 <= length (hmac k m))%nat) ->
+  forall s nonce lt now1 now2,
+    length nonce = 8%nat -> Forall is_byte nonce ->
+    0 <= lt <= 9223372036 -> 0 <= now1 -> now1 + lt < 2 ^ 33 * giga -> 0 <= now2 < 2 ^ 33 * giga ->
+    now2 <= ((now1 + lt) / giga + lt) * giga ->
+    check_payload hmac s lt now2 (generate_payload hmac s nonce lt now1) = Ok true.
+Proof. exact generated_payload_accepted. Qed.
+Print Assumptions C19_generated_payload_accepted.
+
+(* a server that keys the MAC with the secret cut (or padded) to the 64-byte HMAC block is refuted *)
+Theorem C19_block_key_design_refuted :
+  (check_payload w_mac w_secret_b 300 0 (generate_payload w_mac w_secret_a w_nonce 300 0) = Ok false) /\
+  (check_payload w_mac w_secret_a 300 0 (generate_payload w_mac w_secret_a w_nonce 300 0) = Ok true) /\
+  (check_payload w_mac (block_key w_secret_b) 300 0
+     (generate_payload w_mac (block_key w_secret_a) w_nonce 300 0) = Ok true) /\
+  (check_payload w_mac (block_key w_secret_a) 300 0 (generate_payload w_mac w_secret_a w_nonce 300 0) = Ok false).
+Proof. exact block_key_design_refuted. Qed.
 
 (** the defects repaired in ParseStateInit (model of the old code in TonConnectHistory.v) *)
 Theorem C19_F16_panicked_before_fix :
